@@ -10,9 +10,31 @@ Require Import Celma.Common.Res Celma.Common.ListX Celma.Common.Tactics
 
 (** a use, with an arbitrary type of argument names *)
 Inductive guse (I : Type) :=
-| GFlag (i : I)
-| GVal (i : I) (v : str).
-Arguments GFlag {I}. Arguments GVal {I}.
+| GFlag (i : I)                 (* an argument that takes no value *)
+| GVal (i : I) (v : str)        (* an argument with its value text *)
+| GFree (v : str).              (* a word that is a value on its own (further value of a multi-value argument
+                                   or positional argument) *)
+Arguments GFlag {I}. Arguments GVal {I}. Arguments GFree {I}.
+
+(** a word that stands as a value behind "--": anything but a single control character *)
+Definition dd_value (v : str) : Prop := match v with [x] => is_ctrl x = false | _ => True end.
+
+Lemma next_ddash vs : next false (bw ([DASH; DASH] :: vs)) = next false (mk vs 0 false true).
+Proof.
+  unfold next, bw, mk. cbn [rest cpos nextval dashed next_words orb andb negb Nat.eqb].
+  unfold rdc. cbn [length Nat.leb nth bind]. rewrite (ceq_refl DASH). cbn [negb orb andb Nat.eqb].
+  unfold determine, rdc. cbn [length Nat.leb nth bind]. rewrite (ceq_refl DASH). cbn [Nat.add Nat.eqb].
+  reflexivity.
+Qed.
+
+Lemma next_dashed v vs : dd_value v ->
+  next false (mk (v :: vs) 0 false true) = Ok (Some (EVal v, mk vs 0 false true)).
+Proof.
+  intros Hv. unfold next, mk. cbn [rest cpos nextval dashed next_words orb andb negb Nat.eqb].
+  unfold rdc. cbn [Nat.leb bind]. rewrite orb_true_r.
+  destruct v as [|x [|y r]]; cbn [length Nat.eqb andb nth]; try reflexivity.
+  cbn in Hv. rewrite Hv. reflexivity.
+Qed.
 
 Section Gen.
 Variable I : Type.
@@ -61,6 +83,12 @@ Hypothesis H_lval : forall s i w cur v it2, Sinv s -> lname i w -> treq i ->
 Hypothesis H_sval : forall s i ch cur v it2, Sinv s -> sname i ch -> treq i ->
   next true cur = Ok (Some (EVal v, it2)) ->
   estep s (EChar ch) cur = do s1 <- ustep s (GVal i v); Ok (AConsumed, s1, it2).
+(** a free value: consumed (iterator unchanged) or unknown = the error of the loop *)
+Hypothesis H_free : forall s v cur, Sinv s ->
+  (do r <- estep s (EVal v) cur;
+   let '(a, s1, i1) := r in
+   match a with AUnknown => Err uerr | AConsumed => Ok (s1, i1) end)
+  = do s1 <- ustep s (GFree v); Ok (s1, cur).
 
 Definition gflags_ok (fs : list (I * N)) : Prop := Forall (fun p => sname (fst p) (snd p) /\ tnone (fst p)) fs.
 
@@ -80,7 +108,11 @@ Inductive gspell : list (guse I) -> list str -> Prop :=
     gspell (map (fun p => GFlag (fst p)) fs ++ GVal i v :: us) ((DASH :: map snd fs ++ ch :: v) :: ws)
 | gsp_short_sep : forall fs i ch v us ws,
     gflags_ok fs -> sname i ch -> treq i -> sep_value v -> gspell us ws ->
-    gspell (map (fun p => GFlag (fst p)) fs ++ GVal i v :: us) ((DASH :: map snd fs ++ [ch]) :: v :: ws).
+    gspell (map (fun p => GFlag (fst p)) fs ++ GVal i v :: us) ((DASH :: map snd fs ++ [ch]) :: v :: ws)
+| gsp_free : forall v us ws,
+    sep_value v -> gspell us ws -> gspell (GFree v :: us) (v :: ws)
+| gsp_ddash : forall vs,
+    Forall dd_value vs -> gspell (map GFree vs) ([DASH; DASH] :: vs).
 
 Lemma giter_end s f : giter f s None = Ok s.
 Proof. destruct f; reflexivity. Qed.
@@ -95,6 +127,24 @@ Lemma grun_consumed s f i0 e i1 (X : res St) i2 :
 Proof.
   intros Hn He. unfold grun at 1. rewrite Hn. cbn [bind giter]. rewrite He.
   destruct X as [s1|e1|f1]; reflexivity.
+Qed.
+
+Lemma giter_factored s f e i0 :
+  giter (S f) s (Some (e, i0)) =
+  do p <- (do r <- estep s e i0;
+           let '(a, s1, i1) := r in
+           match a with AUnknown => Err uerr | AConsumed => Ok (s1, i1) end);
+  let '(s1, i1) := p in do nx <- next false i1; giter f s1 nx.
+Proof.
+  cbn [giter]. destruct (estep s e i0) as [[[a s1] i1]|?|?]; cbn [bind]; auto. destruct a; reflexivity.
+Qed.
+
+Lemma grun_free s f i0 v i1 :
+  Sinv s -> next false i0 = Ok (Some (EVal v, i1)) ->
+  grun s (S f) i0 = do s1 <- ustep s (GFree v); grun s1 f i1.
+Proof.
+  intros Hi Hn. unfold grun at 1. rewrite Hn. cbn [bind]. rewrite giter_factored, (H_free s v i1 Hi).
+  destruct (ustep s (GFree v)); reflexivity.
 Qed.
 
 Lemma gfold_app us1 : forall us2 s, gfold s (us1 ++ us2) = do s1 <- gfold s us1; gfold s1 us2.
@@ -129,11 +179,22 @@ Proof.
     + apply H_sflag; assumption.
 Qed.
 
+Lemma grun_dashed : forall vs s f, Sinv s -> Forall dd_value vs ->
+  grun s (length vs + f) (mk vs 0 false true) = gfold s (map GFree vs).
+Proof.
+  induction vs as [|v vs IH]; intros s f Hi Hv.
+  - unfold grun, next, mk. cbn. apply giter_end.
+  - inversion Hv as [|? ? Hv1 Hvr]; subst. cbn [length Nat.add map gfold].
+    rewrite (grun_free s (length vs + f) _ v (mk vs 0 false true) Hi (next_dashed v vs Hv1)).
+    destruct (ustep s (GFree v)) eqn:E; cbn [bind]; auto. apply IH; auto. eapply ustep_inv; eauto.
+Qed.
+
 Theorem gspell_run us ws :
   gspell us ws -> forall s f, Sinv s -> grun s (length us + f) (bw ws) = gfold s us.
 Proof.
   induction 1 as [|i w us ws Hl Hn Hsp IH|i w v us ws Hl Hr Hsp IH|i w v us ws Hl Hr Hv Hsp IH
-                  |fs us ws Hne Hf Hsp IH|fs i ch v us ws Hf Hs Hr Hv Hsp IH|fs i ch v us ws Hf Hs Hr Hv Hsp IH];
+                  |fs us ws Hne Hf Hsp IH|fs i ch v us ws Hf Hs Hr Hv Hsp IH|fs i ch v us ws Hf Hs Hr Hv Hsp IH
+                  |v us ws Hv Hsp IH|vs Hvs];
     intros s f Hi.
   - apply grun_end.
   - cbn [length Nat.add gfold]. destruct (lname_shape _ _ Hl) as (Hw & He).
@@ -184,20 +245,42 @@ Proof.
     + destruct (ustep s1 (GVal i v)) eqn:E2; cbn [bind]; auto. apply IH. eapply ustep_inv; eauto.
     + apply next_grp. eapply sname_shape; eauto.
     + apply H_sval; auto. unfold grp_after. apply next_sep_value. exact Hv.
+  - cbn [length Nat.add gfold].
+    rewrite (grun_free s (length us + f) _ v (bw ws) Hi (next_sep_value v ws false Hv)).
+    destruct (ustep s (GFree v)) eqn:E; cbn [bind]; auto. apply IH. eapply ustep_inv; eauto.
+  - rewrite map_length. unfold grun at 1. rewrite next_ddash. apply (grun_dashed vs s f Hi Hvs).
 Qed.
+
+Ltac first_dash_word :=
+  unfold first, next, bw, mk; cbn [rest cpos nextval dashed next_words orb andb negb Nat.eqb];
+  unfold rdc; cbn [length Nat.leb nth bind]; rewrite (ceq_refl DASH); cbn [negb orb andb Nat.eqb];
+  try reflexivity.
 
 Lemma gfirst_spelled us ws : gspell us ws -> first ws = next false (bw ws).
 Proof.
-  intros H. destruct H; try reflexivity.
-  all: unfold first, next, bw, mk; cbn [rest cpos nextval dashed next_words orb andb negb Nat.eqb];
-    unfold rdc; cbn [length Nat.leb nth bind]; rewrite (ceq_refl DASH); cbn [negb orb andb Nat.eqb];
-    try reflexivity.
-  all: match goal with fs : list (I * N) |- _ => destruct fs as [|[? ?] ?] end; try congruence; reflexivity.
+  intros H. destruct H as [| | | |fs ? ? Hne ? ?|fs ? ? ? ? ? ? ? ? ?|fs ? ? ? ? ? ? ? ? ?|v us ws Hv Hsp|vs Hvs].
+  - reflexivity.
+  - first_dash_word.
+  - first_dash_word.
+  - first_dash_word.
+  - first_dash_word. destruct fs as [|[? ?] ?]; try congruence; reflexivity.
+  - first_dash_word. destruct fs as [|[? ?] ?]; reflexivity.
+  - first_dash_word. destruct fs as [|[? ?] ?]; reflexivity.
+  - rewrite (next_sep_value v ws false Hv). unfold first, rdc. cbn [Nat.leb bind].
+    destruct v as [|x r]; cbn [nth].
+    + cbn. reflexivity.
+    + destruct Hv as [Hx _]. rewrite (ceq_dash_false x Hx). reflexivity.
+  - first_dash_word.
 Qed.
+
+Lemma words_size_length (vs : list str) : length vs <= words_size vs.
+Proof. unfold words_size. induction vs as [|v r IH]; cbn [length fold_right]; lia. Qed.
 
 Lemma gspell_size us ws : gspell us ws -> length us <= words_size ws.
 Proof.
-  unfold words_size. induction 1; cbn [length fold_right] in *;
+  induction 1 as [| | | | | | | |vs Hvs].
+  9: { rewrite map_length. pose proof (words_size_length vs). unfold words_size in *. cbn [fold_right length]. lia. }
+  all: unfold words_size in *; cbn [length fold_right] in *;
     repeat (rewrite ?app_length, ?map_length; cbn [length]); lia.
 Qed.
 
